@@ -272,9 +272,16 @@ func NewService(cfg *v1.ServerConfig) (*Service, error) {
 	}
 
 	// Listen for accepting connections from client using websocket protocol.
+	// Only the websocket endpoint itself is claimed: the request target must end after the path or continue
+	// with a query. Other targets that merely start with it (e.g. "/~!frp/x") belong to the vhost HTTP
+	// listener when it shares the port.
 	websocketPrefix := []byte("GET " + netpkg.FrpWebsocketPath)
-	websocketLn := svr.muxer.Listen(0, uint32(len(websocketPrefix)), func(data []byte) bool {
-		return bytes.Equal(data, websocketPrefix)
+	websocketLn := svr.muxer.Listen(0, uint32(len(websocketPrefix))+1, func(data []byte) bool {
+		if len(data) <= len(websocketPrefix) || !bytes.HasPrefix(data, websocketPrefix) {
+			return false
+		}
+		next := data[len(websocketPrefix)]
+		return next == ' ' || next == '?'
 	})
 	svr.websocketListener = netpkg.NewWebsocketListener(websocketLn)
 
